@@ -2,21 +2,29 @@
 EXTENDS Lifespan, Json
 Shapes == SUBSET {"startup", "shutdown"}
 StacksUpTo(n) == UNION {[1..m -> Shapes] : m \in 0..n}
+LStacks2 == StacksUpTo(2)
 LStacks3 == StacksUpTo(3)
 LStacks4 == StacksUpTo(4)
+BothShape == {{"startup", "shutdown"}}
+NoShape == {}
+XAddMiddleware == \E s \in AddShapes : AddMiddleware(s)
+XEnter == Enter
 XRecvStartup == RecvStartup
 XStartupOk == phase = "startup" /\ StartupCall("ok")
 XStartupRaise == phase = "startup" /\ StartupCall("raise")
 XStartupSkip == StartupSkip
 XStartupDone == StartupDone
+XAbandon == Abandon
 XRecvShutdown == RecvShutdown
 XShutdownOk == phase = "shutdown" /\ ShutdownCall("ok")
 XShutdownRaise == phase = "shutdown" /\ ShutdownCall("raise")
 XShutdownSkip == ShutdownSkip
 XShutdownDone == ShutdownDone
-MCNext == XRecvStartup \/ XStartupOk \/ XStartupRaise \/ XStartupSkip \/ XStartupDone \/ XRecvShutdown
-          \/ XShutdownOk \/ XShutdownRaise \/ XShutdownSkip \/ XShutdownDone
-(* behaviour export: every state in which the server may stop talking (startup answered, or finished) *)
-Emit == phase \in {"up", "down"} =>
-    PrintT(ToJson([hs |-> [c \in 1..N |-> hs[c]], calls |-> calls, sent |-> sent, shutdown |-> (phase = "down" /\ Len(sent) = 2)]))
+MCNext == XAddMiddleware \/ XEnter \/ XRecvStartup \/ XStartupOk \/ XStartupRaise \/ XStartupSkip \/ XStartupDone
+          \/ XAbandon \/ XRecvShutdown \/ XShutdownOk \/ XShutdownRaise \/ XShutdownSkip \/ XShutdownDone
+(* behaviour export: every history at a point where no lifespan scope is open *)
+Emit == (phase = "out" /\ cycle >= 1) =>
+    PrintT(ToJson([hs |-> [c \in 1..N |-> hs[c]], adds |-> adds, sd |-> sd, calls |-> calls, sent |-> sent]))
+EmitLast == (phase = "out" /\ cycle = MaxCycles) =>
+    PrintT(ToJson([hs |-> [c \in 1..N |-> hs[c]], adds |-> adds, sd |-> sd, calls |-> calls, sent |-> sent]))
 =============================================================================
